@@ -151,6 +151,17 @@ func newConn(h *Handler, s *xmpp.Session, iq openIQ, recv bool, maxBufSize int) 
 	}
 }
 
+// fromPeer reports whether a stanza with the given from attribute comes from
+// the other end of the stream.
+// A stanza without a from attribute comes from the entity on the other side of
+// the XMPP session (servers stamp the address on everything they deliver for
+// somebody else), and a stream that was opened without an address is a stream
+// with that entity.
+func (c *Conn) fromPeer(from jid.JID) bool {
+	peer := c.stanzaWriter.to
+	return from.Equal(jid.JID{}) || peer.Equal(jid.JID{}) || from.Equal(peer)
+}
+
 // SID returns a unique session ID for the connection.
 func (c *Conn) SID() string {
 	return c.stanzaWriter.sid
